@@ -188,7 +188,19 @@ func runPluginSigner() int {
 		ps, err := signer.NewPluginSigner(p, "key-1", map[string]string{"cfg": "1"})
 		must(err)
 		ann := map[string]string{"org.example/build": "42", "team": "alpha", "io.example/notes": ""}
-		want := ocispec.Descriptor{MediaType: mtA, Digest: digestOf(digest.SHA256, []byte("requested artifact")), Size: 1234, Annotations: copyMap(ann)}
+		// the size of the artifact: ordinary, zero, or beyond what a floating-point number counts exactly (COSE carries the payload bytes
+		// verbatim; the JWS signer of notation-core-go passes the payload through a generic JSON value itself)
+		size := int64(1234)
+		if in.Format == "cose" {
+			size = []int64{1234, 0, 1 << 53, 1<<53 + 1, 1 << 62, 1<<63 - 2}[mix(*flagSeed, c.ID, "size")%6]
+			if devs["otherSize"] && mix(*flagSeed, c.ID, "size")%3 != 0 {
+				// (a plugin that signs a size one byte off: most interesting where one byte is less than the spacing of floats)
+				size = []int64{1 << 53, 1 << 62}[mix(*flagSeed, c.ID, "size")%2]
+			}
+		} else if mix(*flagSeed, c.ID, "size")%6 == 1 {
+			size = 0
+		}
+		want := ocispec.Descriptor{MediaType: mtA, Digest: digestOf(digest.SHA256, []byte("requested artifact")), Size: size, Annotations: copyMap(ann)}
 		opts := notation.SignerSignOptions{SignatureMediaType: mediaTypeOf(in.Format), ExpiryDuration: 0}
 		obs := PSObs{}
 		var sig []byte
